@@ -3,6 +3,9 @@ import os
 import re
 
 
+FIELD_TYPES = {}     # struct -> {field: type text}; filled by scan()
+
+
 def _strip_comments(s):
     s = re.sub(r'//[^\n]*', '', s)
     s = re.sub(r'/\*.*?\*/', '', s, flags=re.S)
@@ -69,8 +72,9 @@ def scan(paths, features=()):
             fs_ = []
             for it in items:
                 it = re.sub(r'#\[[^\]]*\]\s*', '', it).strip()
-                mm = re.match(r'^(?:pub(?:\([^)]*\))?\s+)?(?:r#)?(\w+)\s*:', it)
+                mm = re.match(r'^(?:pub(?:\([^)]*\))?\s+)?(?:r#)?(\w+)\s*:\s*(.*)$', it, re.S)
                 if mm:
                     fs_.append(mm.group(1))
+                    FIELD_TYPES.setdefault(m.group(1), {})[mm.group(1)] = ' '.join(mm.group(2).split())
             structs.setdefault(m.group(1), fs_)
     return enums, structs
